@@ -14,7 +14,7 @@ import numpy as np
 
 from .common import Check, model_env
 from .stubs import sym_array
-from pyxsym.sym import s_and, s_not, is_sym, Sym, ctx, sym_pow, s_exp
+from pyxsym.sym import s_and, s_not, is_sym, Sym, ctx, sym_pow, s_exp, s_min, s_max, s_fabs
 from .C07 import PandasShim, Frame
 
 REPLAY = ("replay_drivers.C04", "replay")
@@ -65,6 +65,14 @@ MODELS = {
             "S": -(p["N"] * s["S"] * s["E"] / (1 + s["I"])),
             "E": p["N"] * s["S"] * s["E"] / (1 + s["I"]) - (p["Q"] * s["E"] + p["O"] * t),
             "I": p["Q"] * s["E"] + p["O"] * t}),
+    # limiting-substrate laws: n-ary min / max over three arguments (sympy flattens nested calls into one n-ary node), abs
+    "general_minmax": dict(
+        species=["A", "B", "C"],
+        reactions=lambda P: [(["A"], ["B"], "general", {"rate": "k1*min(A, B, C)"}), (["B"], ["C"], "general", {"rate": "k2*max(C, max(A, B))"}),
+                             (["C"], [], "general", {"rate": "k3*abs(A - B)"})],
+        params=["k1", "k2", "k3"],
+        rhs=lambda s, p, t: (lambda lo, hi, ab: {"A": -p["k1"] * lo, "B": p["k1"] * lo - p["k2"] * hi, "C": p["k2"] * hi - p["k3"] * ab})(
+            s_min(s["A"], s["B"], s["C"]), s_max(s["A"], s["B"], s["C"]), s_fabs(s["A"] - s["B"]))),
 }
 
 
